@@ -93,21 +93,42 @@ def queue_pipeline_ops(run, g: nx.Graph, want=("canon", "serialize")):
     return c, s, info
 
 
+def oracle_form(info):
+    orc = (info or {}).get("oracle") or []
+    if orc and "order" in orc[-1]:
+        return R.canonical_form(orc[-1])
+    return None
+
+
+def check_oracle_contract(run, base_form, logs, m, m2):
+    """validation of the assumption about igraph/bliss (`CanonOracle.canonical`): colour-isomorphic inputs
+    must get identical canonical forms"""
+    if base_form is None or not logs or "order" not in logs[-1]:
+        return
+    run.stats["oracle_pairs_checked"] += 1
+    if R.canonical_form(logs[-1]) != base_form:
+        run.fail("bliss-contract-violated", "igraph returned different canonical forms for colour-isomorphic inputs",
+                 {"mol": mol_repr(m), "relabelled": mol_repr(m2)})
+
+
 def work_C01(run, rng, budget):
     nmol = 120 * budget
     for m in molecules(run, rng, nmol):
         g = mol_graph(m)
-        c, s0, _ = queue_pipeline_ops(run, g)
+        c, s0, info0 = queue_pipeline_ops(run, g)
         if s0 is None:
             s0, err = safe(tucan_of, mol_graph(m))
             if err is not None:
                 run.fail("pipeline-raises", f"pipeline raised {type(err).__name__}", {"mol": mol_repr(m)})
                 continue
         nontrivial = m.n() >= 2
+        base_form = oracle_form(info0)
         for _ in range(3):
             m2, perm = G.relabel(m, rng)
             g2 = mol_graph(m2)
+            n0 = len(R.ORACLE_LOG)
             s2, err = safe(tucan_of, g2)
+            check_oracle_contract(run, base_form, R.ORACLE_LOG[n0:], m, m2)
             run.case(("C01", mol_repr(m), perm), nontrivial and perm != sorted(perm))
             if err is not None:
                 run.fail("pipeline-raises", f"pipeline raised {type(err).__name__}", {"mol": mol_repr(m2)})
@@ -161,18 +182,21 @@ def canon_maps(c: nx.Graph):
 def work_C04(run, rng, budget):
     for m in molecules(run, rng, 120 * budget):
         g = mol_graph(m)
-        c, _, _ = queue_pipeline_ops(run, g, want=("canon",))
+        c, _, info0 = queue_pipeline_ops(run, g, want=("canon",))
         if c is None:
             c, err = safe(canonicalize_molecule, mol_graph(m))
             if err is not None:
                 run.fail("canonicalize-raises", type(err).__name__, {"mol": mol_repr(m)})
                 continue
+        base_form = oracle_form(info0)
         n0, e0 = canon_maps(c)
         if sorted(n0) != list(range(m.n())):
             run.fail("labels-not-0..n-1", f"canonical labels {sorted(n0)}", {"mol": mol_repr(m)})
         for _ in range(3):
             m2, perm = G.relabel(m, rng)
+            k0 = len(R.ORACLE_LOG)
             c2, err = safe(canonicalize_molecule, mol_graph(m2))
+            check_oracle_contract(run, base_form, R.ORACLE_LOG[k0:], m, m2)
             run.case(("C04", mol_repr(m), perm), m.n() >= 2 and perm != sorted(perm))
             if err is not None:
                 run.fail("canonicalize-raises", type(err).__name__, {"mol": mol_repr(m2)})
